@@ -509,6 +509,13 @@ static void check_nested_positions(std::vector<Fail>& f, mc::Report& rep)
                 if (std::find(distinct.begin(), distinct.end(), x) == distinct.end())
                     distinct.push_back(x);
             check_positions("string(sizes)", distinct, 1, [](const std::string&, const std::string&) { return 0; }, f, rep);
+            // a family of strings that are equal up to an embedded NUL and differ behind it (packed ids, UTF-16 text)
+            std::vector<std::string> nulfam;
+            for (auto tail : { "", "c", "d", "cd", "ce", "zzzz", "c\0d" })
+                nulfam.push_back(std::string("ab\0", 3) + std::string(tail, std::string(tail) == "c" ? 1 : std::strlen(tail)));
+            nulfam.push_back(std::string("ab\0c\0d", 6));
+            nulfam.push_back(std::string("ab\0c\0e", 6));
+            check_positions("string(equal up to an embedded NUL)", nulfam, 1, [](const std::string&, const std::string&) { return 0; }, f, rep);
             using T = std::tuple<std::string, std::string>;
             std::vector<T> tg;
             for (size_t i = 0; i < distinct.size(); i += 3)
